@@ -2,9 +2,6 @@ package main
 
 import (
 	"fmt"
-	"go/ast"
-	"go/types"
-	"strings"
 	"gocv/vc"
 )
 
@@ -13,22 +10,7 @@ func main() {
 	if err != nil {
 		panic(err)
 	}
-	for _, pkg := range p.Pkgs {
-		for i, f := range pkg.Syntax {
-			if strings.HasSuffix(pkg.CompiledGoFiles[i], "_test.go") { continue }
-			for _, d := range f.Decls {
-				fd, ok := d.(*ast.FuncDecl)
-				if !ok || fd.Body == nil { continue }
-				ast.Inspect(fd.Body, func(n ast.Node) bool {
-					if rs, ok := n.(*ast.RangeStmt); ok {
-						if _, isMap := pkg.TypesInfo.TypeOf(rs.X).Underlying().(*types.Map); isMap {
-							ps := pkg.Fset.Position(rs.Pos())
-							fmt.Printf("%s %s:%d\n", vc.FuncKey(pkg.Name, fd), ps.Filename[6:], ps.Line)
-						}
-					}
-					return true
-				})
-			}
-		}
+	for _, m := range vc.MapRanges(p) {
+		fmt.Printf("%v %s#%d %s %s\n", m.OK, m.Func, m.Ordinal, m.Pos, m.Why)
 	}
 }
